@@ -508,6 +508,14 @@ def _native_tt_search(self, budget):
             for sh in (0, 1):
                 for np_ in (False, True):
                     yield {"t": t, "tg": tg, "sh": sh, "np": np_}
+    # grouped simulators: two-tier times; intervals between siblings (cut-off 1: sub-steps are NOT carried over), inside one group
+    # (cut-off 2), weak (sub-step + 1), from a group to the root and back
+    for t in ((1, 0), (1, 1), (1, 2), (2, 0)):
+        for sh in ({"tiers": (0, 0), "cutoff": 1, "pre": 2}, {"tiers": (0, 0), "cutoff": 2, "pre": 2}, {"tiers": (0, 1), "cutoff": 2, "pre": 2},
+                   {"tiers": (1, 0), "cutoff": 1, "pre": 2}, {"tiers": (0,), "cutoff": 1, "pre": 2}):
+            for tg in ((1, 0), (1, 1), (2, 0)) if len(sh["tiers"]) == 2 else ((1,), (2,)):
+                for np_ in (False, True):
+                    yield {"tiered": True, "t": list(t), "tg": list(tg), "sh": {**sh, "tiers": list(sh["tiers"])}, "np": np_}
 
 
 def _native_tt_call(self, m):
@@ -515,6 +523,17 @@ def _native_tt_call(self, m):
         return True, "symbolic counter-models are not replayed (native search is)"
     from mosaik.progress import Progress
     from mosaik.tiered_time import TieredTime, TieredInterval
+    if m.get("tiered"):
+        sh = m["sh"]
+        iv = TieredInterval(*sh["tiers"], cutoff=sh["cutoff"], pre_length=sh["pre"])
+        t, tg = tuple(m["t"]), tuple(m["tg"])
+        # the time at the destination, written out from the definition of a delay: the first `cutoff` tiers are added,
+        # the tiers behind the cut-off are REPLACED by the interval's
+        tad = tuple(a + b for a, b in zip(t[:sh["cutoff"]], sh["tiers"][:sh["cutoff"]])) + tuple(sh["tiers"][sh["cutoff"]:])
+        r = Progress(TieredTime(*t))._triggered_time((TieredTime(*tg), iv, m["np"]))
+        trig_ = tad > tg if m["np"] else tad >= tg
+        ok = (r == TieredTime(*tad)) if trig_ else (r is None)
+        return ok, f"Progress({t})._triggered_time(target={tg}, shift={iv!r}, needs_to_pass={m['np']}) = {r!r}, time at the destination is {tad}"
     pr = Progress(TieredTime(m["t"]))
     r = pr._triggered_time((TieredTime(m["tg"]), TieredInterval(m["sh"]), m["np"]))
     tad = m["t"] + m["sh"]
